@@ -41,6 +41,14 @@ def run(ctx):
     for stmt, nm in SELECTORS.items():
         f = ctx.fn(nm)
         t = truthiness_table(prog, f)
+        if t is None:
+            # the selector may delegate the classification to a shared function (is_truthy_*): take that function's table
+            for _i, tt in f.calls():
+                cn = callee_name(tt) or ''
+                if cn.startswith(EX) and 'truthy' in cn.rsplit('::', 1)[-1]:
+                    for g in prog.by_nice.get(cn, []):
+                        t = t or truthiness_table(prog, g)
+                        delegated = cn
         ctx.require(t is not None, f'{nm}: no match on SqlValue found (row selection no longer recognised)')
         # comparable classes: SELECT raises an error where DML says "false"; both are "not selected" only if SELECT also drops
         diff = {v: (t[v], ref[v]) for v in ref if t[v] != ref[v] and not (t[v] == 'error' and ref[v] == 'error')}
